@@ -14,7 +14,7 @@ RULE = ("tree of four 131073-byte files that share prefix and suffix (two equal,
         "the file's mtime by 10 ms - and runs `group --cache` with a configuration from {metro, blake3, sha512} x {no transform, "
         "transform cat} x --max-prefix-size {unset, 8192} or with the length-changing transforms `head -c 1000` / `head -c 70000` (same program, different classes), or one command string with and without --in-place, or a run SIGKILLed at 1/4, 1/2, 3/4 of its call history; "
         "ALL histories (edit, run)^d after an initial cache-filling run: quick d=2 over 10 edits x 2 configurations + 5 edits x the (head, head2) switches + 5 x 3 edits under blake3 and sha512 (long digests); "
-        "thorough d=2 over the full alphabet and d=3 over 6 edits x 2 configurations (+ killed runs). A state is the "
+        "thorough d=2 over the full alphabet and d=3 over 6 edits x 2 configurations (+ killed runs); (f) an edit applied WHILE a cached run (single-threaded, cold cache) is in progress - paused just before and just after every call that touches the edited file - followed by two complete cached runs; (g) two fresh tmpfs instances below the root whose k-th files have equal inode numbers, lengths and modification times: every sequence of three cached runs over {vol1, vol2, both}. A state is the "
         "tree + cache after a history prefix; a transition is one event. Invariant after every run: the report body "
         "(lengths, hashes, paths, order) of the cached run equals that of an uncached run of the same configuration on "
         "the same tree state.")
@@ -121,6 +121,16 @@ def cases(tier, seed):
         for h in itertools.product([(e, c) for e in EDITS_D3 for c in ("metro", "metro_tr")], repeat=2):
             for frac in (0.25, 0.5, 0.75):
                 out.append({"history": [list(x) for x in h], "kills": frac})
+    # (f) an edit WHILE a cached run is in progress (at every call of the run that touches the file, just before and
+    # just after it), then a complete cached run: what the interrupted-by-an-edit run left in the cache may not matter
+    for cfg in (("metro", "metro_tr") if tier == "quick" else ("metro", "metro_tr", "blake3_tr_p8k", "metro_head", "metro_ip_on")):
+        for edit in ((("set", "F2", "V1"),) if tier == "quick" else (("set", "F2", "V1"), ("set", "F3", "V0"), ("append", "F2"))):
+            out.append({"kind": "during", "cfg": cfg, "edit": list(edit)})
+    # (g) two freshly made file systems below the root whose files have equal inode numbers, lengths and times
+    sets = ("1", "2", "12")
+    for cfg in (("metro",) if tier == "quick" else ("metro", "blake3_tr", "metro_head")):
+        for h in itertools.product(sets, repeat=3):
+            out.append({"kind": "twofs", "cfg": cfg, "runs": list(h)})
     return out
 
 
@@ -222,7 +232,136 @@ def body(report):
     return [(g["len"], g["hash"], [C.u(p) for p in g["paths"]]) for g in report.groups]
 
 
+def evaluate_during(case):
+    """An edit (ordinary write: new mtime) lands at event k of a cached run; afterwards cached == uncached."""
+    viol = []
+    states = 0
+    transitions = 0
+    cfg = case["cfg"]
+    # (tmpfs: inode numbers grow monotonically, so the walk - which visits entries in inode order - repeats exactly
+    # when the tree is rebuilt; on ext4 freed inode numbers come back in another order)
+    with C.Scratch() as sc, C.Scratch() as fast:
+        base_args = ["group", "--min", "0", "-f", "json", "r", "-t", "1"] + CONFIGS[cfg]
+
+        def fresh(n):
+            C.rmtree(sc.tree)
+            os.makedirs(sc.path("r"))
+            w = World(sc)
+            for name, v in INITIAL:
+                w.write(name, C.content(VARIANTS[v]))
+            w.write("s1", b"small file content")
+            w.write("s2", b"small file content")
+            env = {"FCLONES_VERIF_DISK_KIND": "ssd", "XDG_CACHE_HOME": os.path.join(fast.root, "cache%d" % n)}
+            os.makedirs(env["XDG_CACHE_HOME"])
+            return w, env
+
+        w, env = fresh(0)
+        target = w.p(case["edit"][1]).decode()
+        rec = S.run_with_shim(sc, base_args + ["--cache"], [sc.tree], "r", env_extra=env)
+        if rec["rc"] != 0:
+            raise C.MachineryError("cached run failed: %s" % rec["err"][-300:])
+        ev = rec["events"]
+        touch = [i for i, e in enumerate(ev) if e.path == target]
+        if len(touch) < 3:
+            raise C.MachineryError("the run touches %s only %d times" % (target, len(touch)))
+        positions = sorted(set([i for i in touch] + [i + 1 for i in touch if i + 1 < len(ev)]))
+        n = 0
+        for k in positions:
+            n += 1
+            w, env = fresh(n)
+            res = S.run_with_shim(sc, base_args + ["--cache"], [sc.tree], "r", mode="pause", at=k, env_extra=env,
+                                  on_pause=lambda: w.apply(case["edit"]))
+            if not res["paused"]:
+                raise C.MachineryError("the cached run did not pause at event %d" % k)
+            dd = S.same_history(ev, res["events"], upto=min(k, len(res["events"])))
+            if dd:
+                raise C.MachineryError("prefix diverged before event %d: %s" % (k, dd))
+            transitions += 1
+            for rep in range(2):
+                rc, out, err, to = C.fclones(base_args + ["--cache"], sc, env_extra=env)
+                rc2, out2, err2, to2 = C.fclones(base_args, sc, env_extra=env)
+                if rc2 != 0 or to2:
+                    raise C.MachineryError("uncached run failed: %s" % err2[-300:])
+                states += 1
+                transitions += 1
+                feat = {"kind": "cached_result_differs", "last_edit": case["edit"][0], "config": cfg, "previous_edit": "none",
+                        "after_killed_run": False, "edit_during_cached_run": True}
+                if rc != 0 or to:
+                    viol.append(dict(feat, kind="cached_run_failed", detail=err.decode("utf-8", "replace")[-300:]))
+                    break
+                cached, plain = body(C.parse_json_report(out)), body(C.parse_json_report(out2))
+                if cached != plain:
+                    viol.append(dict(feat, detail="edit %s applied at event %d (%r) of a cached run; the next cached run reports %s, an uncached run %s" % (
+                        case["edit"], k, ev[k], [(l, h[:8], [os.path.basename(p) for p in ps]) for l, h, ps in cached],
+                        [(l, h[:8], [os.path.basename(p) for p in ps]) for l, h, ps in plain])))
+                    break
+    return {"violations": viol, "states": states, "transitions": transitions, "evaluations": states,
+            "nontrivial": [["during", cfg, case["edit"]]], "outcome": "edit_during_run",
+            "counters": {"edits_during_a_run": len(positions)}, "sample": {"during": case}}
+
+
+def evaluate_twofs(case):
+    """Two fresh tmpfs instances below the root: the k-th files have equal inode numbers, and here also equal lengths and
+    modification times. Cached runs over vol1, vol2 or both, in every order of three."""
+    import subprocess
+    from . import c09
+    if not c09.can_mount():
+        return {"violations": [], "states": 0, "transitions": 0, "nontrivial": None, "outcome": "skipped_no_mount"}
+    viol = []
+    states = 0
+    cfg = case["cfg"]
+    with C.Scratch() as sc:
+        mounts = []
+        try:
+            for m in ("v1", "v2"):
+                d = os.path.join(sc.tree, "r", m)
+                os.makedirs(d)
+                if subprocess.run(["mount", "-t", "tmpfs", "none", d]).returncode != 0:
+                    return {"violations": [], "states": 0, "transitions": 0, "nontrivial": None, "outcome": "skipped_no_mount"}
+                mounts.append(d)
+            t = 1_600_000_000_000_000_000
+            for vol, (va, vb) in (("v1", ("V0", "V0")), ("v2", ("V1", "V2"))):
+                for name, v in (("pa", va), ("pb", vb), ("pc", va)):
+                    p = os.path.join(sc.tree, "r", vol, name)
+                    with open(p, "wb") as f:
+                        f.write(C.content(VARIANTS[v]))
+                    os.utime(p, ns=(t, t))
+            ino = lambda x: os.stat(os.path.join(sc.tree, x)).st_ino
+            same = all(ino("r/v1/" + n) == ino("r/v2/" + n) for n in ("pa", "pb", "pc")) and \
+                os.stat(mounts[0]).st_dev != os.stat(mounts[1]).st_dev
+            env = {"FCLONES_VERIF_DISK_KIND": "ssd"}
+            hist = []
+            for rs in case["runs"]:
+                roots = ["r/v" + c for c in rs]
+                hist.append(roots)
+                args = ["group", "--min", "0", "-f", "json"] + CONFIGS[cfg] + roots
+                rc, out, err, to = C.fclones(args + ["--cache"], sc, env_extra=env)
+                rc2, out2, err2, to2 = C.fclones(args, sc, env_extra=env)
+                if rc2 != 0 or to2 or rc != 0 or to:
+                    raise C.MachineryError("run failed: %s %s" % (err[-200:], err2[-200:]))
+                states += 1
+                cached, plain = body(C.parse_json_report(out)), body(C.parse_json_report(out2))
+                if cached != plain:
+                    viol.append({"kind": "cached_result_differs", "last_edit": "none", "config": cfg, "previous_edit": "none",
+                                 "after_killed_run": False, "two_file_systems_equal_inode_numbers": True,
+                                 "detail": "cached runs over %s: the last one reports %s, an uncached run %s" % (
+                                     hist, [(l, h[:8], [p[-5:] for p in ps]) for l, h, ps in cached],
+                                     [(l, h[:8], [p[-5:] for p in ps]) for l, h, ps in plain])})
+                    break
+        finally:
+            for d in mounts:
+                subprocess.run(["umount", d])
+    return {"violations": viol, "states": states, "transitions": states, "evaluations": states,
+            "nontrivial": [["twofs", cfg, case["runs"]]] if same else None,
+            "outcome": "twofs_same_inode" if same else "twofs_inode_differs",
+            "counters": {"equal_inode_numbers_on_two_file_systems": 1 if same else 0}, "sample": {"twofs": case}}
+
+
 def evaluate(case):
+    if case.get("kind") == "during":
+        return evaluate_during(case)
+    if case.get("kind") == "twofs":
+        return evaluate_twofs(case)
     viol = []
     states = 0
     transitions = 0
@@ -299,4 +438,6 @@ def json_key(h):
 def finish(stats, tier):
     if not stats.get("counters", {}).get("inode_reuses"):
         return ["no history in which a deleted file's inode number was reused (ext4 scratch expected)"]
+    if not stats.get("counters", {}).get("edits_during_a_run"):
+        return ["no edit was applied while a cached run was in progress"]
     return []
